@@ -1,4 +1,5 @@
 """C03: decided on spec/Cascade.tla (TLC) + trace validation of the real controller (spec/CascadeTrace.tla)."""
+from ..cascade_engine import replay as _replay
 from ..cascade_engine import report
 
 LEVEL = "model_checking"
@@ -6,3 +7,7 @@ LEVEL = "model_checking"
 
 def run(ctx):
     report(ctx, "C03")
+
+
+def replay(ctx, rep):
+    return _replay(ctx, "C03", rep)
